@@ -120,7 +120,7 @@ MANIFEST = {
     "setup_cmd": f"{PY} -m simkit.setup_check",
     "hooks": {
         "guard": "EASYFEA_VERIF",
-        "enable": "no source hook exists: every seam is reached by module-attribute injection from /verif (open/pickle on EasyFEA.Simulations._simu and EasyFEA.FEM._mesh, sla/optimize in EasyFEA.Simulations.Solvers, Tic clock, fake mpi4py/petsc4py in sys.modules). The guard name is reserved; nothing reads it.",
+        "enable": "no source hook exists: every seam is reached by module-attribute injection from /verif (open/pickle on EasyFEA.Simulations._simu and EasyFEA.FEM._mesh, sla/optimize in EasyFEA.Simulations.Solvers, scipy.sparse inside EasyFEA.Simulations._simu (failing allocations), Tic clock, fake mpi4py/petsc4py in sys.modules). The guard name is reserved; nothing reads it.",
         "baseline_off_cmd": "cd /repo && /venv/bin/python -m pytest -ra -q -p no:cacheprovider --timeout=900 --continue-on-collection-errors",
         "source_commits": [],
         "add_only": True,
